@@ -505,3 +505,273 @@ Proof.
     cbn [negb err_small orb]. reflexivity.
   - split; reflexivity.
 Qed.
+
+Lemma nr_loop_break {T} {NT : Num T} (f f' : T -> res T) tol cap fuel s s' :
+  nr_body f f' tol cap s = Ok (s', true) -> nr_loop f f' tol cap fuel s = Ok s'.
+Proof. intro H. destruct fuel; cbn [nr_loop]; rewrite H; reflexivity. Qed.
+
+(* ------------------------------------------------------------------------- *)
+(* convergence half in exact arithmetic: real-rooted target, start to the     *)
+(* right of the largest root R > 0                                            *)
+(* ------------------------------------------------------------------------- *)
+Fixpoint rprod (rs : list R) (x : R) : R :=
+  match rs with [] => 1 | r :: rs' => (x - r) * rprod rs' x end.
+(* derivative of rprod: sum over j of the product without the j-th factor *)
+Fixpoint rdprod (rs : list R) (x : R) : R :=
+  match rs with [] => 0 | r :: rs' => rprod rs' x + (x - r) * rdprod rs' x end.
+Fixpoint rsum (rs : list R) (x : R) : R :=
+  match rs with [] => 0 | r :: rs' => / (x - r) + rsum rs' x end.
+
+Lemma rprod_is_derive rs x : is_derive (rprod rs) x (rdprod rs x).
+Proof.
+  induction rs as [|r rs IH]; cbn [rprod rdprod].
+  - apply (is_derive_const (V := R_NormedModule) 1 x).
+  - replace (rprod rs x + (x - r) * rdprod rs x)
+      with (plus (mult 1 (rprod rs x)) (mult (x - r) (rdprod rs x))) by (unfold plus, mult; cbn; ring).
+    apply (is_derive_mult (fun y : R => y - r) (rprod rs) x 1 (rdprod rs x)).
+    + auto_derive; [exact I|ring].
+    + exact IH.
+    + intros a b. apply Rmult_comm.
+Qed.
+
+Lemma rprod_root rs r : In r rs -> rprod rs r = 0.
+Proof.
+  induction rs as [|r' l IH]; intro H; [contradiction|]. cbn [rprod].
+  destruct H as [->|H]; [ring|]. rewrite (IH H). ring.
+Qed.
+
+Lemma rprod_pos rs x : (forall r, In r rs -> r < x) -> 0 < rprod rs x.
+Proof.
+  induction rs as [|r rs IH]; intro H; cbn [rprod]; [lra|].
+  apply Rmult_lt_0_compat.
+  - pose proof (H r (or_introl eq_refl)). lra.
+  - apply IH. intros r' Hr. apply H. right. exact Hr.
+Qed.
+
+Lemma rdprod_rsum rs x : (forall r, In r rs -> r < x) -> rdprod rs x = rprod rs x * rsum rs x.
+Proof.
+  induction rs as [|r rs IH]; intro H; cbn [rprod rdprod rsum]; [ring|].
+  rewrite IH by (intros r' Hr; apply H; right; exact Hr).
+  pose proof (H r (or_introl eq_refl)). field. lra.
+Qed.
+
+Lemma rsum_nonneg rs x : (forall r, In r rs -> r < x) -> 0 <= rsum rs x.
+Proof.
+  induction rs as [|r rs IH]; intro H; cbn [rsum]; [lra|].
+  pose proof (H r (or_introl eq_refl)) as Hr.
+  assert (0 < / (x - r)) by (apply Rinv_0_lt_compat; lra).
+  assert (0 <= rsum rs x) by (apply IH; intros r' Hr'; apply H; right; exact Hr').
+  lra.
+Qed.
+
+Lemma rsum_lower rs x Rm : In Rm rs -> (forall r, In r rs -> r < x) -> / (x - Rm) <= rsum rs x.
+Proof.
+  induction rs as [|r rs IH]; intros Hin H; [contradiction|]. cbn [rsum].
+  pose proof (H r (or_introl eq_refl)) as Hr.
+  assert (Hrest : forall r', In r' rs -> r' < x) by (intros r' Hr'; apply H; right; exact Hr').
+  destruct Hin as [->|Hin].
+  - pose proof (rsum_nonneg rs x Hrest). lra.
+  - assert (0 < / (x - r)) by (apply Rinv_0_lt_compat; lra).
+    pose proof (IH Hin Hrest). lra.
+Qed.
+
+Lemma rsum_upper rs x Rm : (forall r, In r rs -> r <= Rm) -> Rm < x -> rsum rs x <= INR (length rs) * / (x - Rm).
+Proof.
+  induction rs as [|r rs IH]; intros H Hx.
+  - cbn. lra.
+  - cbn [rsum]. change (length (r :: rs)) with (S (length rs)). rewrite S_INR.
+    pose proof (H r (or_introl eq_refl)) as Hr.
+    assert (/ (x - r) <= / (x - Rm)) by (apply Rinv_le_contravar; lra).
+    assert (rsum rs x <= INR (length rs) * / (x - Rm)) by (apply IH; [intros r' Hr'; apply H; right; exact Hr'|exact Hx]).
+    lra.
+Qed.
+
+(* the Newton step s = g/g' to the right of the largest root Rm of an n-fold product:
+   (x - Rm)/n <= s <= x - Rm *)
+Lemma newton_step_real_rooted c rs Rm x :
+  c <> 0 -> In Rm rs -> (forall r, In r rs -> r <= Rm) -> Rm < x ->
+  let s := (c * rprod rs x) / (c * rdprod rs x) in
+  0 < s /\ s <= x - Rm /\ x - Rm <= INR (length rs) * s.
+Proof.
+  intros Hc Hin Hmax Hx s.
+  assert (Hlt : forall r, In r rs -> r < x) by (intros r Hr; pose proof (Hmax r Hr); lra).
+  pose proof (rprod_pos rs x Hlt) as HP.
+  pose proof (rsum_lower rs x Rm Hin Hlt) as HSl.
+  pose proof (rsum_upper rs x Rm Hmax Hx) as HSu.
+  assert (Hi : 0 < / (x - Rm)) by (apply Rinv_0_lt_compat; lra).
+  assert (HS : 0 < rsum rs x) by lra.
+  assert (Hs : s = / rsum rs x).
+  { unfold s. rewrite (rdprod_rsum rs x Hlt). field. repeat split; lra. }
+  assert (Hs0 : 0 < s) by (rewrite Hs; apply Rinv_0_lt_compat; exact HS).
+  assert (HsS : s * rsum rs x = 1) by (rewrite Hs; field; lra).
+  assert (H1 : 1 <= rsum rs x * (x - Rm)).
+  { apply (Rmult_le_compat_r (x - Rm)) in HSl; [|lra].
+    replace (/ (x - Rm) * (x - Rm)) with 1 in HSl by (field; lra). exact HSl. }
+  assert (H2 : rsum rs x * (x - Rm) <= INR (length rs)).
+  { apply (Rmult_le_compat_r (x - Rm)) in HSu; [|lra].
+    replace (INR (length rs) * / (x - Rm) * (x - Rm)) with (INR (length rs)) in HSu by (field; lra). exact HSu. }
+  split; [exact Hs0|]. split.
+  - (* s = s * 1 <= s * (S (x - Rm)) = x - Rm *)
+    replace (x - Rm) with (s * rsum rs x * (x - Rm)) by (rewrite HsS; ring).
+    rewrite Rmult_assoc. rewrite <- (Rmult_1_r s) at 1. apply Rmult_le_compat_l; lra.
+  - replace (x - Rm) with (s * (rsum rs x * (x - Rm))) by (rewrite <- Rmult_assoc, HsS; ring).
+    rewrite (Rmult_comm (INR (length rs)) s). apply Rmult_le_compat_l; lra.
+Qed.
+
+Section Converges.
+  Variables (f f' : R -> res R) (c : R) (rs : list R) (Rm x0 tol : R) (cap K : nat).
+  Hypothesis Hf : forall x, f x = Ok (c * rprod rs x).
+  Hypothesis Hf' : forall x, f' x = Ok (c * rdprod rs x).
+  Hypothesis Hc : c <> 0.
+  Hypothesis Hin : In Rm rs.
+  Hypothesis Hmax : forall r, In r rs -> r <= Rm.
+  Hypothesis HRpos : 0 < Rm.
+  Hypothesis Htol : 0 < tol.
+  Hypothesis Hx0 : Rm < x0.
+  Hypothesis HK : (S K < cap)%nat.
+  Let N := INR (length rs).
+  Hypothesis Hbudget : 100 * (N - 1) ^ K * (x0 - Rm) < tol * Rm * N ^ K.
+
+  Let Inv (s : nstate R) : Prop :=
+    Rm < ns_x s /\ (ns_x s - Rm) * N ^ ns_iter s <= (N - 1) ^ ns_iter s * (x0 - Rm).
+
+  Lemma N_ge_1 : 1 <= N.
+  Proof.
+    unfold N. destruct rs as [|r l]; [contradiction|].
+    change (length (r :: l)) with (S (length l)). rewrite S_INR. pose proof (pos_INR (length l)). lra.
+  Qed.
+
+  Lemma g_nonzero_right x : Rm < x -> c * rprod rs x <> 0.
+  Proof.
+    intro Hx. assert (0 < rprod rs x).
+    { apply rprod_pos. intros r Hr. pose proof (Hmax r Hr). lra. }
+    intro Z. apply Rmult_integral in Z. destruct Z; [contradiction|lra].
+  Qed.
+
+  Lemma nr_converges_loop : forall fuel s,
+    Inv s -> (ns_iter s <= K)%nat -> (cap <= ns_iter s + fuel)%nat ->
+    exists r, nr_loop f f' tol cap fuel s = Ok r /\ (ns_iter r <= S K)%nat /\
+              Rm <= ns_x r /\ (ns_x r - Rm) * 100 <= (N - 1) * tol * ns_x r.
+  Proof.
+    pose proof N_ge_1 as HN.
+    induction fuel as [|fuel IH]; intros s (Hx & HD) Hi Hfuel; [lia|].
+    (* the body runs *)
+    assert (Hbody : exists s' b, nr_body f f' tol cap s = Ok (s', b)).
+    { unfold nr_body. rewrite Hf, Hf'. cbn [bind]. rewrite nfinite_R, Hf. cbn [bind].
+      eexists. eexists. reflexivity. }
+    destruct Hbody as (s' & b & Hb).
+    pose proof Hb as Hb'. apply nr_body_R in Hb'.
+    destruct Hb' as (v & d & vx & Hv & Hd & Hvx & Hx' & _ & Hit & Hbrk & Hcase).
+    rewrite Hf in Hv, Hvx. rewrite Hf' in Hd. injection Hv as <-. injection Hd as <-. injection Hvx as <-.
+    destruct (newton_step_real_rooted c rs Rm (ns_x s) Hc Hin Hmax Hx) as (Hs0 & Hs1 & Hs2).
+    set (st := c * rprod rs (ns_x s) / (c * rdprod rs (ns_x s))) in *.
+    fold N in Hs2.
+    assert (Hx'R : Rm <= ns_x s') by (rewrite Hx'; lra).
+    assert (Hx'pos : 0 < ns_x s') by lra.
+    assert (Hnear : ns_x s' - Rm <= (N - 1) * st) by (rewrite Hx'; lra).
+    assert (Hleb : Nat.leb cap (S (ns_iter s)) = false) by (apply Nat.leb_gt; lia).
+    rewrite Hleb, orb_false_r in Hbrk.
+    (* the state after the body, if the loop leaves here, satisfies the conclusion *)
+    assert (Hdone : b = true -> Rm <= ns_x s' /\ (ns_x s' - Rm) * 100 <= (N - 1) * tol * ns_x s').
+    { intro Eb. split; [exact Hx'R|].
+      destruct Hcase as [(Z & _)|[(_ & _ & He)|(_ & Z & _)]].
+      - (* exact root: the iterate is Rm itself *)
+        destruct (Rle_lt_or_eq_dec _ _ Hx'R) as [Hgt|Heq].
+        + exfalso. exact (g_nonzero_right _ Hgt Z).
+        + rewrite <- Heq. replace (Rm - Rm) with 0 by ring.
+          assert (0 <= (N - 1) * tol * Rm) by (apply Rmult_le_pos; [apply Rmult_le_pos|]; lra). lra.
+      - rewrite Eb, He in Hbrk. cbn [err_small nltb nabs RNum] in Hbrk. symmetry in Hbrk. apply Rltb_true in Hbrk.
+        replace (Rabs (ns_x s' - ns_x s)) with st in Hbrk
+          by (rewrite Hx'; replace (ns_x s - st - ns_x s) with (- st) by ring; rewrite Rabs_Ropp, Rabs_pos_eq; lra).
+        rewrite Rabs_pos_eq in Hbrk.
+        2:{ apply Rmult_le_pos; [|lra]. apply Rmult_le_pos; [lra|]. left. apply Rinv_0_lt_compat. exact Hx'pos. }
+        assert (Hst : st * 100 < tol * ns_x s').
+        { apply (Rmult_lt_compat_r (ns_x s')) in Hbrk; [|exact Hx'pos].
+          replace (st / ns_x s' * 100 * ns_x s') with (st * 100) in Hbrk by (field; lra). exact Hbrk. }
+        assert (0 <= N - 1) by lra.
+        assert ((N - 1) * (st * 100) <= (N - 1) * (tol * ns_x s')) by (apply Rmult_le_compat_l; lra).
+        nra.
+      - lra. }
+    destruct b.
+    - exists s'. split; [apply nr_loop_break; exact Hb|]. split; [lia|]. apply Hdone. reflexivity.
+    - (* the loop goes on: the iterate is not a root and the step is not yet small *)
+      assert (Hne : c * rprod rs (ns_x s') <> 0 /\ tol * ns_x s' <= st * 100).
+      { destruct Hcase as [(Z & He)|[(Nz & _ & He)|(_ & Z & _)]].
+        - exfalso. rewrite He in Hbrk. cbn [err_small nltb nabs RNum] in Hbrk. rewrite Rabs_R0 in Hbrk.
+          symmetry in Hbrk. apply Rltb_false in Hbrk. lra.
+        - split; [exact Nz|]. rewrite He in Hbrk. cbn [err_small nltb nabs RNum] in Hbrk.
+          symmetry in Hbrk. apply Rltb_false in Hbrk.
+          replace (Rabs (ns_x s' - ns_x s)) with st in Hbrk
+            by (rewrite Hx'; replace (ns_x s - st - ns_x s) with (- st) by ring; rewrite Rabs_Ropp, Rabs_pos_eq; lra).
+          rewrite Rabs_pos_eq in Hbrk.
+          2:{ apply Rmult_le_pos; [|lra]. apply Rmult_le_pos; [lra|]. left. apply Rinv_0_lt_compat. exact Hx'pos. }
+          apply (Rmult_le_compat_r (ns_x s')) in Hbrk; [|lra].
+          replace (st / ns_x s' * 100 * ns_x s') with (st * 100) in Hbrk by (field; lra). exact Hbrk.
+        - lra. }
+      destruct Hne as (Hnz & Hbig).
+      assert (Hgt : Rm < ns_x s').
+      { destruct (Rle_lt_or_eq_dec _ _ Hx'R) as [Hgt|Heq]; [exact Hgt|exfalso].
+        apply Hnz. rewrite <- Heq.
+        rewrite (rprod_root rs Rm Hin). ring. }
+      pose proof (pow_lt N (ns_iter s) ltac:(lra)) as HNk.
+      assert (HNm : 0 <= (N - 1) ^ ns_iter s) by (apply pow_le; lra).
+      (* the contraction  N (x' - Rm) <= (N - 1) (x - Rm) *)
+      assert (Hcontr : N * (ns_x s' - Rm) <= (N - 1) * (ns_x s - Rm)) by (rewrite Hx'; lra).
+      assert (HD' : (ns_x s' - Rm) * N ^ S (ns_iter s) <= (N - 1) ^ S (ns_iter s) * (x0 - Rm)).
+      { cbn [pow].
+        assert (N * (ns_x s' - Rm) * N ^ ns_iter s <= (N - 1) * (ns_x s - Rm) * N ^ ns_iter s)
+          by (apply Rmult_le_compat_r; lra).
+        assert ((N - 1) * ((ns_x s - Rm) * N ^ ns_iter s) <= (N - 1) * ((N - 1) ^ ns_iter s * (x0 - Rm)))
+          by (apply Rmult_le_compat_l; lra).
+        lra. }
+      (* iter < K, otherwise the step is already below the tolerance *)
+      assert (Hlt : (ns_iter s < K)%nat).
+      { destruct (Nat.lt_ge_cases (ns_iter s) K) as [|Hge]; [assumption|exfalso].
+        assert (Ek : ns_iter s = K) by lia. rewrite Ek in HD, HNk.
+        assert (100 * ((ns_x s - Rm) * N ^ K) < tol * Rm * N ^ K) by lra.
+        assert (100 * (ns_x s - Rm) < tol * Rm).
+        { apply (Rmult_lt_reg_r (N ^ K)); [exact HNk|]. lra. }
+        assert (tol * Rm <= tol * ns_x s') by (apply Rmult_le_compat_l; lra).
+        lra. }
+      destruct fuel as [|fuel']; [lia|].
+      cbn [nr_loop]. rewrite Hb.
+      destruct (IH s') as (r & Hl & Hir & HrR & Hrb).
+      + split; [exact Hgt|]. rewrite Hit. exact HD'.
+      + lia.
+      + lia.
+      + exists r. repeat split; assumption.
+  Qed.
+
+  Lemma nr_converges : exists x, nrm f f' x0 cap tol = Ok x /\ Rm <= x /\ (x - Rm) * 100 <= (N - 1) * tol * x.
+  Proof.
+    destruct (nr_converges_loop cap (nr_start x0)) as (r & Hl & Hir & HrR & Hrb).
+    - split; cbn [nr_start ns_x ns_iter pow]; lra.
+    - cbn. lia.
+    - cbn. lia.
+    - exists (ns_x r). split; [|split; assumption].
+      unfold nrm. rewrite Hl. cbn [bind].
+      replace (Nat.leb cap (ns_iter r)) with false by (symmetry; apply Nat.leb_gt; lia). reflexivity.
+  Qed.
+End Converges.
+
+Lemma c07_converges_to_extreme_root : forall (f f' : R -> res R) (c : R) (rs : list R) (Rm x0 tol : R) (cap K : nat),
+  (forall x, f x = Ok (c * rprod rs x)) -> (forall x, f' x = Ok (c * rdprod rs x)) ->
+  c <> 0 -> In Rm rs -> (forall r, In r rs -> r <= Rm) -> 0 < Rm -> 0 < tol -> Rm < x0 ->
+  (S K < cap)%nat ->
+  100 * (INR (length rs) - 1) ^ K * (x0 - Rm) < tol * Rm * INR (length rs) ^ K ->
+  exists x, nrm f f' x0 cap tol = Ok x /\ Rm <= x /\ (x - Rm) * 100 <= (INR (length rs) - 1) * tol * x.
+Proof. intros. eapply nr_converges; eassumption. Qed.
+
+(* non-vacuity: (x-1)(x-2)(x-4) from x0 = 10, tol = 1e-3 (percent), cap 100, K = 30 *)
+Lemma c07_example_converges :
+  exists x, nrm (fun x => Ok (1 * rprod [1; 2; 4] x)) (fun x => Ok (1 * rdprod [1; 2; 4] x)) 10 100 (1 / 1000) = Ok x /\
+            4 <= x /\ (x - 4) * 100 <= 2 * (1 / 1000) * x.
+Proof.
+  destruct (c07_converges_to_extreme_root (fun x => Ok (1 * rprod [1; 2; 4] x)) (fun x => Ok (1 * rdprod [1; 2; 4] x))
+              1 [1; 2; 4] 4 10 (1 / 1000) 100 30) as (x & Hx & H4 & Hb); try reflexivity; try lra; try lia.
+  - cbn. tauto.
+  - intros r [<-|[<-|[<-|[]]]]; lra.
+  - cbn [length INR]. replace (1 + 1 + 1 - 1) with 2 by ring. replace (1 + 1 + 1) with 3 by ring. lra.
+  - exists x. split; [exact Hx|]. split; [exact H4|].
+    cbn [length INR] in Hb. replace (1 + 1 + 1 - 1) with 2 in Hb by ring. exact Hb.
+Qed.
